@@ -140,8 +140,14 @@ class C09(Check):
         # a failing creation over an existing catalog (overwrite=True): the old completeness marker must not survive it
         for pos in (["middle"] if q else ["first", "middle", "last"]):
             out.append(dict(fault="overwrite_valid_nan_ra", pos=pos, source="dataframe", mode="centres"))
+        # a directory condition and a data fault in the same call: the call fails, what was there stays
+        for fault in ("exists_valid_no_overwrite+nan_ra", "overwrite_foreign_dir+nan_ra", "overwrite_empty_dir+nan_ra"):
+            out.append(dict(fault=fault, pos="middle", source="dataframe", mode="centres"))
+        # an unreadable row group in the middle of a Parquet file (damaged page): an error, not the end of the input
+        for pos in (["last"] if q else ["middle", "last"]):
+            out.append(dict(fault="parquet_damaged_row_group", pos=pos, source="parquet", mode="centres"))
         # the cache location runs full while patch data is written (file-size limit): refuse, never return a shortened catalog
-        for lim in (["total-1", "half", "record-boundary"] if q else ["total-1", "total-8", "half", "record-boundary", "tiny"]):
+        for lim in (["total-1", "half", "record-boundary", "total-32"] if q else ["total-1", "total-8", "half", "record-boundary", "tiny", "total-32", "total-64"]):
             out.append(dict(fault=f"fsize_{lim}", pos="-", source="dataframe", mode="index"))
         # fault-free controls whose last chunk holds fewer records than there are workers
         out.append(dict(fault="none", pos="short_tail", source="dataframe", mode="centres"))
@@ -188,6 +194,9 @@ class C09(Check):
         import pandas as pd
 
         fault, pos, source, mode = case["fault"], case["pos"], case["source"], case["mode"]
+        extra_nan = fault.endswith("+nan_ra")
+        if extra_nan:
+            fault = fault.split("+")[0]
         work.mkdir(parents=True)
         cols = make_input(np.random.default_rng([case["seed"], 99]))
         if pos == "short_tail":
@@ -203,7 +212,7 @@ class C09(Check):
         if fault.startswith("fsize_"):
             # patch files: one header byte + 80 records of 32 bytes (ra, dec, weights, redshifts)
             total = 1 + (n // 3) * 32
-            fsize_limit = {"total-1": total - 1, "total-8": total - 8, "half": 1 + 32 * (n // 6) + 5, "record-boundary": 1 + 32 * (n // 6),
+            fsize_limit = {"total-32": total - 32, "total-64": total - 64, "total-1": total - 1, "total-8": total - 8, "half": 1 + 32 * (n // 6) + 5, "record-boundary": 1 + 32 * (n // 6),
                            "tiny": 40}[fault.split("_", 1)[1]]
         target = work / "cache"
         kwargs = dict(ra_name="ra", dec_name="dec", weight_name="w", redshift_name="z", chunksize=chunk,
@@ -230,6 +239,8 @@ class C09(Check):
         elif fault.startswith("pid_"):
             cols["patch"][row] = int(fault.split("_")[1])
         elif fault == "overwrite_valid_nan_ra":
+            cols["ra"][row] = np.nan
+        if extra_nan:
             cols["ra"][row] = np.nan
         elif fault == "zero_weight_patch":
             cols["w"][cols["patch"] == 1] = 0.0
@@ -285,6 +296,16 @@ class C09(Check):
             hpath = work / ("input" + vsources.EXT[source])
             fcols = {k: v for k, v in cols.items() if not (fault == "missing_column" and k == "z")}
             vsources.write_source(source, hpath, fcols, row_group_size=50)
+            if fault == "parquet_damaged_row_group":
+                from pyarrow import parquet as _pq
+
+                md = _pq.ParquetFile(hpath).metadata
+                k = md.num_row_groups - 1 if pos == "last" else md.num_row_groups // 2
+                col = md.row_group(k).column(0)
+                offset = col.dictionary_page_offset if col.has_dictionary_page else col.data_page_offset
+                with open(hpath, "r+b") as f:  # the page header of one column chunk becomes garbage, the footer stays intact
+                    f.seek(offset)
+                    f.write(b"\xff" * 16)
         expected = rows_digest(np.deg2rad(cols["ra"]), np.deg2rad(cols["dec"]), cols["w"], cols["z"])
 
         def run():
